@@ -103,6 +103,7 @@ def PInv (op : Op) : P → Prop
   | .rvRecv _ => isRecvOp op = true
   | .rvTo _ _ => isRecvOp op = true
   | .osRecv _ _ => isRecvOp op = true
+  | .stg _ _ _ sent rest => op.vals = sent ++ rest ∧ isRecvOp op = false
   | .fin o =>
     (isSendOp op = true →
       (op.vals = o.sent ++ o.back ++ o.lost ∨
@@ -181,6 +182,55 @@ theorem osSendStep_pinv {op : Op} {s h hd v} (hv : op.vals = [v]) (hso : isSendO
   · simp [PInv, hv, hso, hr]
   · split <;> simp [PInv, hv, hso, hr]
 
+theorem osSendStart_pinv {op : Op} {cfg s t h hd v} (hv : op.vals = [v]) (hso : isSendOp op = true) :
+    PInv op (osSendStart cfg s t h hd v).2 := by
+  have hr : isRecvOp op = false := by cases op <;> simp_all [isSendOp, isRecvOp]
+  unfold osSendStart
+  split
+  · split
+    · simp [osSendFail, PInv, hv, hso, hr]
+    · simp [PInv, hv, hr]
+  · exact osSendStep_pinv hv hso
+
+theorem stgStep_pinv {op : Op} {fl s t k h sent rest s' p'} (hp : PInv op (.stg t k h sent rest))
+    (hs : stgStep fl s t k h sent rest = some (s', p')) : PInv op p' := by
+  obtain ⟨hv, hr⟩ := hp
+  have hn : isSendOp op = false → sent = [] ∧ rest = [] := by
+    intro h0
+    have : op.vals = [] := by cases op <;> simp_all [isSendOp, Op.vals]
+    rw [this] at hv
+    exact List.append_eq_nil_iff.mp hv.symm
+  unfold stgStep at hs
+  split at hs
+  · split at hs
+    · cases hs
+      refine ⟨fun _ => ⟨Or.inl (by simp [hv]), rfl⟩, fun h1 => by simp [hr] at h1, fun h0 _ => ?_⟩
+      obtain ⟨a, b⟩ := hn h0
+      exact ⟨a, b, rfl, rfl⟩
+    · cases hs; exact ⟨hv, hr⟩
+  · split at hs
+    · split at hs
+      · split at hs
+        · cases hs; exact ⟨by simp [hv], hr⟩
+        · cases hs
+      · cases hs
+    · split at hs
+      · rename_i hk
+        cases hs
+        obtain ⟨_, _, hrest⟩ := hk
+        subst hrest
+        refine ⟨fun _ => ⟨Or.inl (by simp [hv]), rfl⟩, fun h1 => by simp [hr] at h1, fun h0 _ => ?_⟩
+        exact ⟨(hn h0).1, rfl, rfl, rfl⟩
+      · split at hs
+        · rename_i hk
+          cases hs
+          exact PInv.fin_tag _ _ _ (Or.inr (Or.inl (by simp [hv, hk.2.1, hk.2.2])))
+        · split at hs
+          · rename_i hk
+            cases hs
+            exact PInv.fin_tag _ _ _ (Or.inr (Or.inl (by simp [hv, hk.2.1, hk.2.2])))
+          · cases hs
+
 theorem startSend_pinv (fl cfg s t f h vs) : PInv (.snd f h vs) (startSend fl cfg s t f h vs).2 := by
   have hso : isSendOp (.snd f h vs) = true := rfl
   have hv : (Op.snd f h vs).vals = [] ++ vs := rfl
@@ -191,7 +241,7 @@ theorem startSend_pinv (fl cfg s t f h vs) : PInv (.snd f h vs) (startSend fl cf
     · exact PInv.fin_tag _ _ _ (Or.inr (Or.inr (Or.inr rfl)))
     · split
       · split
-        · exact osSendStep_pinv rfl hso
+        · exact osSendStart_pinv rfl hso
         · exact PInv.fin_tag _ _ _ (Or.inr (Or.inr (Or.inr rfl)))
       · split
         · split
@@ -285,11 +335,27 @@ theorem start_pinv (fl cfg s t op) : PInv op (start fl cfg s t op).2 := by
     simp only [start]; unfold startClone
     split <;> (try split) <;> exact PInv.fin_tag _ _ _ (Or.inl rfl)
   | close h =>
-    simp only [start]; unfold startClose
-    split <;> (try split) <;> exact PInv.fin_tag _ _ _ (Or.inl rfl)
+    simp only [start]
+    split
+    · unfold startCloseSb
+      split
+      · exact PInv.fin_tag _ _ _ (Or.inl rfl)
+      · split
+        · exact PInv.fin_tag _ _ _ (Or.inl rfl)
+        · exact ⟨rfl, rfl⟩
+    · unfold startClose
+      split <;> (try split) <;> exact PInv.fin_tag _ _ _ (Or.inl rfl)
   | drop h =>
-    simp only [start]; unfold startDrop
-    split <;> exact PInv.fin_tag _ _ _ (Or.inl rfl)
+    simp only [start]
+    split
+    · unfold startDropSb
+      split
+      · exact PInv.fin_tag _ _ _ (Or.inl rfl)
+      · split
+        · exact PInv.fin_tag _ _ _ (Or.inl rfl)
+        · exact ⟨rfl, rfl⟩
+    · unfold startDrop
+      split <;> exact PInv.fin_tag _ _ _ (Or.inl rfl)
   | probe p h =>
     simp only [start]; unfold startProbe
     split <;> (try split) <;> exact PInv.fin_tag _ _ _ (Or.inl rfl)
@@ -357,6 +423,7 @@ theorem micro_pinv {op : Op} {fl cfg s p s' p'} (hp : PInv op p) (hs : (s', p') 
       split at hs
       · cases hs
       · exact osRecvStep_pinv hp hs
+    | stg t k h sent rest => exact stgStep_pinv hp hs
     | fin o => simp [microDet] at hs
   · split at hs
     · cases p with
